@@ -49,6 +49,18 @@ func feeder(name string) (string, error) {
 	if name == "unk" {
 		return "u:<%= nope %>", nil
 	}
+	if name == "lay" {
+		return "<l><%= yield %></l>", nil
+	}
+	if name == "faillay" {
+		return "<l><%= fail() %><%= yield %></l>", nil
+	}
+	if name == "outer" {
+		return "o:<%= partial(\"failing\") %>", nil
+	}
+	if name == "outerlay" {
+		return "o:<%= partial(\"failing\", {layout: \"lay\"}) %>", nil
+	}
 	return "plain", nil
 }
 
@@ -94,6 +106,12 @@ var positions = []string{
 	"<% contentFor(\"c\") { %><%= fail() %><% } %><%= contentOf(\"c\") %>",
 	"<%= contentOf(\"nope\") { %><%= fail() %><% } %>",
 	"<%= partial(\"failing\") %>",
+	"<%= partial(\"failing\", {layout: \"lay\"}) %>",
+	"<%= partial(\"plain\", {layout: \"faillay\"}) %>",
+	"<%= partial(\"outer\") %>",
+	"<%= partial(\"outer\", {layout: \"lay\"}) %>",
+	"<%= partial(\"outerlay\") %>",
+	"<%= partial(\"failing\", {layout: \"faillay\"}) %>",
 	"<% let z = fail() %>",
 	"<% one = fail() %>",
 	"<% fail() %>",
